@@ -3,18 +3,18 @@ CONSTANTS
   Users = {"u1", "u2"}
   Provs = {"p1"}
   RecordHist = FALSE
-  MaxH = 7
+  MaxH = 6
   MaxReq = 3
   Intervals = {0, 1, 2}
   Caps = {10}
-  Bound = {"p1"}
+  Bound = {}
   Price = 10
   Funds = 15
   Timeout = 2
   TaxNum = 1
   TaxDen = 10
-  Kinds = {"seed", "err", "bad"}
-  MaxZH = 0
+  Kinds = {"seed"}
+  MaxZH = 1
 VIEW View
 INVARIANTS
   Inv_C18_Due
